@@ -13,6 +13,7 @@ TRUSTED = [
     "Print Assumptions of every theorem in coq/C12/Props.v: Closed under the global context (checked on each run)",
     "hand-written model coq/C12/Model.v of diff::lines (diff 0.1.12), make_diff, ModifiedLines::from, json/checkstyle line arithmetic, XmlEscaped; tied to the code by the correspondence run (hook verif_hooks::diff, emit_files)",
     "Base/Text.v model of str::lines / split_inclusive (compared through diff_script)",
+    "model of ModifiedLines Display / FromStr (print_modified, parse_modified: u32/usize decimal printing and parsing, split_terminator, split_whitespace, usize = 64 bit); tied to the code by the correspondence run on generated reports and texts (public API ModifiedLines/ModifiedChunk, no hook); parse_modified_pre (the parser before 686d4f4) has no implementation left to compare with",
     "python oracles of this check (apply chunks, hunk consistency), python json / xml.etree parsers for well-formedness",
     "serde_json string escaping is not modelled (documents are parsed by an independent parser instead)",
 ]
@@ -92,6 +93,101 @@ def gen_cases(tier, seed):
         name = rnd.choice(["src/x.rs", "src/a&b.rs", "d<1>/m.rs", 'q"uote.rs', "it's.rs", "é/中.rs"])
         cases.append({"a": a, "b": b, "ctx": ctx, "emit": True, "name": name})
     return cases
+
+
+# ---------------------------------------------------------------- ModifiedLines Display / FromStr cases
+
+PP_LINES = ["", "x\r", "\r", "\r\r", "a\rb", "1 2 3", "2 0 0", "0 0 1", "7", "4294967295 0 0", "+1 1 0",
+            "  lead", "trail  ", " ", "\t", "\x0c", "é中", "\U0001d518", "\u00a0", "\u3000x\u2028", "fn main() {", "}",
+            "1 0 1\r", "-", "٣ ٣ ٣"]
+PP_LF_LINES = ["a\nb", "a\n2 0 0", "\n", "x\r\n", "q\n 3 1 0 junk"]
+PP_NUMS = [0, 1, 2, 3, 9, 10, 25, 99, 100, 65535, 4294967294, 4294967295]
+
+
+def print_ml(chunks):
+    """Display for ModifiedLines (only used to build input texts to mutate; never compared)"""
+    return "".join("%d %d %d\n" % (o, r, len(ls)) + "".join(l + "\n" for l in ls) for (o, r, ls) in chunks)
+
+
+def gen_pp_cases(tier, rnd):
+    cases = []
+    n = 320 if tier == "quick" else 3000
+    for i in range(n):
+        chunks = []
+        for _ in range(rnd.randint(0, 4)):
+            pool = PP_LINES + (PP_LF_LINES if i % 8 == 7 else [])
+            lines = [rnd.choice(pool) for _ in range(rnd.choice([0, 0, 1, 1, 2, 3, 5]))]
+            num = lambda: rnd.choice(PP_NUMS) if rnd.random() < 0.7 else rnd.randrange(1 << 32)
+            chunks.append([num(), num(), lines])
+        text = print_ml(chunks)
+        # the text to parse: the printed one, or a mutation of it
+        for _ in range(rnd.choice([0, 1, 1, 2, 3])):
+            parts = text.split("\n")
+            k = rnd.randrange(len(parts))
+            m = rnd.randint(0, 13)
+            if m == 0:
+                text = text[:-1] if text.endswith("\n") else text + "\n"      # final newline dropped / doubled
+            elif m == 1:
+                parts[k] = parts[k].replace(" ", rnd.choice(["\t", "  ", "\u00a0", "\u3000", "\r", " \x0b ", "\u200b", "\x1f"]), rnd.randint(1, 2))
+            elif m == 2:
+                parts[k] = rnd.choice(["+", " ", "00", "-", "\t+", "+0", "++"]) + parts[k]
+            elif m == 3:
+                parts[k] = parts[k] + rnd.choice([" junk", " 7", "\r", " ", "x", " \r", "\u2029"])
+            elif m == 4:
+                parts[k] = rnd.choice(["4294967296 0 0", "0 4294967296 0", "0 0 4294967296", "1 1 18446744073709551615",
+                                       "1 1 18446744073709551616", "99999999999999999999999 0 0", "1 0", "1", "", "a b c",
+                                       "1 -1 0", "1 0 0x0", "1 0 ٠", "1e0 0 0", "1 0 0.0", "1 0 +0", "4294967295 4294967295 0"])
+            elif m == 5 and len(parts) > 1:
+                del parts[k]                                                     # a line too few / header lost
+            elif m == 6:
+                parts.insert(k, rnd.choice(PP_LINES))                            # a line too many
+            elif m == 7:
+                parts[k] = parts[k] + "\r"                                       # CRLF line ending
+            elif m == 8:
+                text = text.replace("\n", "\r\n")
+            elif m == 9:
+                ws = parts[k].split(" ")
+                if len(ws) == 3 and ws[2].isdigit():
+                    ws[2] = str(max(0, int(ws[2]) + rnd.choice([-1, 1])))        # count off by one
+                    parts[k] = " ".join(ws)
+            elif m == 10:
+                text = text + rnd.choice(["0 0 0", "1 1 1", "1 1 1\nlast", "1 1 1\nlast\r", "\n", "\r", " "])
+            # 11..13: leave as is
+            if m in (1, 2, 3, 4, 5, 6, 7, 9):
+                text = "\n".join(parts)
+        cases.append({"pp": True, "chunks": chunks, "text": text})
+    return cases
+
+
+def pp_oracle(c, r):
+    """print/parse clause evaluated on the implementation's own results"""
+    if "panic" in r:
+        return [("panic", "ModifiedLines Display/FromStr panicked: " + r["panic"])]
+    lines = [l for ch in c["chunks"] for l in ch[2]]
+    if not any("\n" in l for l in lines) and r["reparsed"] != c["chunks"]:
+        cr_line = any(l.endswith("\r") for l in lines)
+        return [("roundtrip_cr" if cr_line else "roundtrip",
+                 "ModifiedLines does not survive Display/FromStr: %r printed as %r parsed as %r" % (c["chunks"], r["printed"], r["reparsed"]))]
+    if not r["fixpoint"]:
+        return [("parse_print_parse", "text %r parses to %r, which does not survive Display/FromStr" % (c["text"], r["parsed"]))]
+    return []
+
+
+def pp_exprs(cases):
+    return ["pp_case %s %s" % (coqterm.render([(o, r, list(ls)) for (o, r, ls) in c["chunks"]]), coqterm.text(c["text"]))
+            for c in cases]
+
+
+def pp_canon(vals):
+    T = coqterm.untext
+
+    def chunks(v):
+        # `Some [..]` is read as an application of Some, `None` as None
+        if v is None:
+            return None
+        cs = v.args[0] if isinstance(v, coqterm.Ctor) else v
+        return [[o, r, [T(l) for l in ls]] for (o, r, ls) in cs]
+    return [{"printed": T(p), "reparsed": chunks(rp), "parsed": chunks(pa)} for (p, rp, pa) in vals]
 
 
 # ---------------------------------------------------------------- oracles on the implementation's results
@@ -204,10 +300,14 @@ def norm_attr(s):
 # ---------------------------------------------------------------- model side
 
 
-def model_results(cases):
+def model_results(cases, pp_cases=()):
+    """(results of `case` for cases, results of `pp_case` for pp_cases); one sharded coqc run for both"""
     exprs = ["case %d %s %s" % (c["ctx"], coqterm.text(c["a"]), coqterm.text(c["b"])) for c in cases]
+    exprs += pp_exprs(pp_cases)
+    if not exprs:
+        return [], []
     vals = common.run_coq_cases("From V Require Import Base.Text C12.Model C12.Run.\nOpen Scope N_scope.", "", exprs, "c12")
-    return vals
+    return vals[:len(cases)], pp_canon(vals[len(cases):])
 
 
 def canon_model(v):
@@ -255,15 +355,21 @@ def run(tier, seed, replay):
     # 4. correspond
     if replay:
         cases = [json.load(open(replay))["case"]]
+        pp_cases = [c for c in cases if c.get("pp")]
+        cases = [c for c in cases if not c.get("pp")]
     else:
         cases = gen_cases(tier, seed)
-    impl = common.run_vh("c12", cases)
+        pp_cases = gen_pp_cases(tier, common.rng(seed, PROP + "pp"))
+    impl = common.run_vh("c12", cases) if cases else []
+    pp_impl = common.run_vh("c12", pp_cases) if pp_cases else []
     model_ok = True
     try:
-        model = model_results(cases) if cr.built or os.path.exists(os.path.join(common.COQ, "C12/Run.vo")) else None
+        have_model = cr.built or os.path.exists(os.path.join(common.COQ, "C12/Run.vo"))
+        model, pp_model = model_results(cases, pp_cases) if have_model else (None, None)
     except Exception as e:
         log("C12: model evaluation failed: %s" % e)
         model = None
+        pp_model = None
     disagreements = []
     nontrivial = set()
     if model is not None:
@@ -277,9 +383,21 @@ def run(tier, seed, replay):
                 if ci[k] != cm[k]:
                     disagreements.append((c, k, {"impl": ci[k], "model": cm[k]}))
                     break
+        for c, r, m in zip(pp_cases, pp_impl, pp_model or []):
+            if "panic" in r:
+                disagreements.append((c, "impl panicked", r))
+                continue
+            for k in ("printed", "reparsed", "parsed"):
+                if r[k] != m[k]:
+                    disagreements.append((c, "pp_" + k, {"impl": r[k], "model": m[k]}))
+                    break
     for c, r in zip(cases, impl):
         if "mm" in r and len(r["mm"]) >= 1:
             nontrivial.add(common.case_hash(c))
+    pp_nontrivial = set()
+    for c, r in zip(pp_cases, pp_impl):
+        if any(ch[2] for ch in c["chunks"]) or r.get("parsed"):
+            pp_nontrivial.add(common.case_hash(c))
     # 5. oracle on the implementation (always), search
     found = 0
     for c, r in zip(cases, impl):
@@ -287,23 +405,29 @@ def run(tier, seed, replay):
             if rep.violation(key, {"case": c, "impl": r}, what):
                 found += 1
             break
-    tie_broken = (not proof_ok) or model is None or disagreements
+    for c, r in zip(pp_cases, pp_impl):
+        for key, what in pp_oracle(c, r):
+            if rep.violation(key, {"case": c, "impl": r}, what):
+                found += 1
+            break
+    tie_broken = (not proof_ok) or model is None or pp_model is None or disagreements
     if tie_broken and found == 0:
         what = []
         if not proof_ok:
             what.append("theorems of coq/C12/Props.v no longer check (failed: %s; hygiene: %s; assumptions: %s)" % (cr.failed_files, cr.hygiene, cr.bad_assumptions))
-        if model is None:
+        if model is None or pp_model is None:
             what.append("model could not be evaluated")
         if disagreements:
             what.append("correspondence model/implementation broken on %d cases, first: %r" % (len(disagreements), disagreements[0]))
         rep.violation("tie", {"broken": what, "first_disagreement": disagreements[:1]}, "; ".join(what), no_input=True)
     rep.coverage.update({
-        "evaluations": len(cases),
-        "distinct_nontrivial": len(nontrivial),
-        "rule": "pairs of texts over lines {a,b,empty} with/without final newline (exhaustive to length %s; seeded sample beyond) x context 0..3, plus seeded random edits of multi-line texts with CR / XML specials / non-ASCII; non-trivial = report has at least one hunk; distinct by hash of the case" % ("2" if tier == "quick" else "4"),
-        "samples": [cases[i] for i in range(0, len(cases), max(1, len(cases) // 5))][:5],
+        "evaluations": len(cases) + len(pp_cases),
+        "distinct_nontrivial": len(nontrivial) + len(pp_nontrivial),
+        "rule": "pairs of texts over lines {a,b,empty} with/without final newline (exhaustive to length %s; seeded sample beyond) x context 0..3, plus seeded random edits of multi-line texts with CR / XML specials / non-ASCII; non-trivial = report has at least one hunk; distinct by hash of the case; plus %d generated ModifiedLines values (0..4 chunks, lines with CR / trailing CR / empty / header look-alikes / blanks / non-ASCII, one in eight with LF inside a line, u32 extremes) each with a text to parse (the printed text or a seeded mutation: white space, signs, zeros, overflow, counts off by one, CRLF, missing final newline): Display, FromStr of that and FromStr of the text compared with the model; non-trivial = a chunk with lines or a text that parses to a non-empty report" % ("2" if tier == "quick" else "4", len(pp_cases)),
+        "samples": ([cases[i] for i in range(0, len(cases), max(1, len(cases) // 4))][:4] + pp_cases[:1]),
         "correspondence_disagreements": len(disagreements),
-        "traces_validated_against_impl": len(cases) if model is not None else 0,
+        "traces_validated_against_impl": (len(cases) + len(pp_cases)) if (model is not None and pp_model is not None) else 0,
+        "print_parse_cases": len(pp_cases),
         "harness_build_s": round(bt, 1),
     })
     return rep.finish()
